@@ -181,3 +181,34 @@ Lemma reachable_keys W (Wpos : 0 < W) member ops :
   let s := ensure W (run W member init_state ops) in
   forall k pw, lookup k (persisted s) = Some pw -> k mod W = 0 /\ k + W <= lenN (chain s).
 Proof. intros Hg s. destruct (reachable_rinv W Wpos member ops Hg) as [_ [Hk _]]. exact Hk. Qed.
+
+(* ---------- starknet_getEvents: a page never leaves the resolved range ---------- *)
+Lemma rpc_page_within_range W (Wpos : 0 < W) member s flt fb tb chunk limit tok s' evs t from to :
+  resolve_bid false (lenN (chain s) - 1) 0 fb = Some from ->
+  resolve_bid true (lenN (chain s) - 1) (lenN (chain s) - 1) tb = Some to ->
+  do_rpc_events W member s flt fb tb chunk limit tok [] = (s', Some (OPage evs t)) ->
+  forall e, In e evs ->
+    (if tok_none tok then from else fst tok) <= fe_block e <= N.min to (lenN (chain s) - 1).
+Proof.
+  intros Hf Ht H e He. unfold do_rpc_events in H.
+  destruct (chain s) as [| b0 ch] eqn:Ech; [discriminate |].
+  rewrite Hf, Ht in H.
+  unfold do_query_pre in H. rewrite Ech in H.
+  destruct (do_query W member s flt from to chunk limit tok) as [s1 o] eqn:Eq.
+  inversion H. subst.
+  pose proof (do_query_page_range W Wpos member s flt from to chunk limit tok s' evs t Eq e He) as P.
+  rewrite Ech in P. exact P.
+Qed.
+
+(* a numeric from_block is taken as it is: above the head the canonical range is empty *)
+Lemma rpc_from_above_head_empty W member s flt n tb chunk limit to :
+  chain s <> [] -> lenN (chain s) - 1 < n ->
+  resolve_bid true (lenN (chain s) - 1) (lenN (chain s) - 1) tb = Some to ->
+  do_rpc_events W member s flt (BNumber n) tb chunk limit (0, 0) [] = (s, Some (OPage [] (0, 0))).
+Proof.
+  intros Hne Hn Ht. unfold do_rpc_events, do_query_pre, do_query.
+  destruct (chain s) as [| b0 ch] eqn:Ech; [contradiction |].
+  rewrite Ht. simpl resolve_bid. change (tok_none (0, 0)) with true. cbv iota.
+  assert (E : N.min to (lenN (b0 :: ch) - 1) <? n = true) by (apply N.ltb_lt; lia).
+  rewrite E. reflexivity.
+Qed.
